@@ -54,6 +54,28 @@ package keeper
 
 //@ ensures [published_aggregate_encodes_recipient_sender_amount_under_the_withdrawal_query_id] err == nil ==> hexdec(arg(SetAggregate, report).AggregateValue) == abienc("address,string,uint256,uint256", ethaddr(bytes(recipient)), accstr(sender), amount.Amount, 0) && bytes(arg(SetAggregate, report).QueryId) == keccak(abienc("string,bytes", "TRBBridge", abienc("bool,uint256", false, id)))
 
+// A batch of claims (C14): every listed deposit goes through ClaimDeposit once, in order; a deposit that was already
+// claimed, or that is listed twice, fails the whole batch (the failed transaction's writes are rolled back by the SDK).
+//@ define claimed(d) = has(bridge.DepositIdClaimedMap, d) && bridge.DepositIdClaimedMap[d].Claimed
+//@ func (k msgServer).ClaimDeposits(goCtx, msg) (resp, err)
+//@ requires [msg_present] msg != nil
+//@ requires [claimer_is_a_valid_address_checked_by_ValidateBasic] bech32ok(msg.Creator)
+//@ requires [claimer_is_not_the_bridge_account] addrstr(msg.Creator) != module("bridge")
+//@ requires [stored_aggregate_timestamps_fit_int64] forall q bytes :: forall t int :: has(oracle.Aggregates, pair(q, t)) ==> t < 9223372036854775808
+//@ modifies bridge.DepositIdClaimedMap, bank.bal, bank.supply
+//@ loop 0 "for i, depositId := range msg.DepositIds"
+//@ loop 0 invariant [indices_aligned] len(msg.DepositIds) == len(msg.Indices)
+//@ loop 0 invariant [claimed_so_far_are_marked] forall j in [0, $i) :: claimed(msg.DepositIds[j])
+//@ loop 0 invariant [claimed_so_far_were_unclaimed_before] forall j in [0, $i) :: !old(claimed(msg.DepositIds[j]))
+//@ loop 0 invariant [claimed_so_far_are_distinct] forall a in [0, $i) :: forall b in [0, $i) :: a < b ==> msg.DepositIds[a] != msg.DepositIds[b]
+//@ loop 0 invariant [a_claimed_deposit_stays_claimed] forall d int :: old(claimed(d)) ==> claimed(d)
+//@ loop 0 invariant [only_listed_deposits_are_marked] forall d int :: (forall j in [0, $i) :: msg.DepositIds[j] != d) ==> bridge.DepositIdClaimedMap[d] == old(bridge.DepositIdClaimedMap[d]) && has(bridge.DepositIdClaimedMap, d) == old(has(bridge.DepositIdClaimedMap, d))
+//@ ensures [ids_and_indices_must_align] len(msg.DepositIds) != len(msg.Indices) ==> err != nil && nothing_written()
+//@ ensures [every_listed_deposit_is_marked_claimed] err == nil ==> forall j in [0, len(msg.DepositIds)) :: claimed(msg.DepositIds[j])
+//@ ensures [an_already_claimed_deposit_fails_the_batch] err == nil ==> forall j in [0, len(msg.DepositIds)) :: !old(claimed(msg.DepositIds[j]))
+//@ ensures [a_deposit_listed_twice_fails_the_batch] err == nil ==> forall a in [0, len(msg.DepositIds)) :: forall b in [0, len(msg.DepositIds)) :: a < b ==> msg.DepositIds[a] != msg.DepositIds[b]
+//@ ensures [only_listed_deposits_are_marked] err == nil ==> forall d int :: (forall j in [0, len(msg.DepositIds)) :: msg.DepositIds[j] != d) ==> bridge.DepositIdClaimedMap[d] == old(bridge.DepositIdClaimedMap[d]) && has(bridge.DepositIdClaimedMap, d) == old(has(bridge.DepositIdClaimedMap, d))
+
 //@ func (k msgServer).WithdrawTokens(goCtx, msg) (resp, err)
 //@ requires [msg_present] msg != nil
 //@ requires [signer_is_not_the_bridge_account] addrstr(msg.Creator) != module("bridge")
